@@ -2,6 +2,17 @@
 """prints the prompt given to an independent sub-agent that seeds a property-breaking change (nothing from /verif but the property text)"""
 import json, sys
 pid = sys.argv[1]
+# round 2: `seedprompt.py Cxx avoid` appends the ideas earlier (independent) agents already produced, so that new ones differ
+avoid = ""
+if len(sys.argv) > 2:
+    import glob, os
+    ideas = []
+    for m in sorted(glob.glob('/verif/seeded/*/meta.json')):
+        d = json.load(open(m))
+        if d.get("breaks_property") == pid: ideas.append("  - " + d["change"])
+    if ideas:
+        avoid = "\nOther developers already tried the following ideas; yours must be DIFFERENT in kind (another code site or another mechanism), and at least one of your two changes should involve " + \
+                "either two cooperating sites that each look fine alone or a multi-step history / particular interleaving:\n" + "\n".join(ideas) + "\n"
 for l in open('/verif/properties.jsonl'):
     p = json.loads(l)
     if p['id'] == pid: break
@@ -14,6 +25,7 @@ A semantic property of this library that should always hold:
   Quantified over: {p['quantifier']['text']}
   Why the existing tests cannot settle it: {p['why_tests_cant']}
 
+{avoid}
 Your task: act as a developer who introduces a REALISTIC bug. Produce TWO different, independent source changes (to the library sources under src/ or static-metric/src/, not to tests), each of which
   (1) still compiles, and the ENTIRE existing test suite still passes with it: `CARGO_NET_OFFLINE=true cargo test --workspace --offline` (run it; all tests must pass), and
   (2) BREAKS the property above, and
